@@ -36,7 +36,7 @@ def run(ctx, factor):
     os.environ["PATH"] = d + ":" + old_path
     try:
         objs = []
-        for k in range(ctx.budget(6, 60) * factor):
+        for k in range(ctx.budget(12, 60) * factor):
             nsec = g.int(1, 3)
             names = g.pick([[".text", ".text2", ".init"], [".text", ".text.Hot", "MyCode"], [".text._ZN3FooC1Ev", ".init", ".text"]])[:nsec]
             secs = [(n, objfuzz.random_bytes(g, g.int(8, 120))) for n in names]
